@@ -410,7 +410,7 @@ pub fn run(args: &Args) -> Report {
     rep.exhaustive = Some(false);
     let need = if miri { 3 } else { args.n(300, 15_000) as u64 };
     rep.floor("histories_with_overlap", overlapped, need);
-    rep.floor(
+    rep.floor_each(
         "lin_checker_conclusive_share_pct",
         100 - inconclusive * 100 / (nhist as u64).max(1),
         95,
